@@ -327,6 +327,27 @@ fn family_special() -> Vec<Case> {
     // redefinition: the later definition wins for later uses (both texts pasted accordingly by the reference: skipped)
     // parameter named like a mnemonic fragment / register prefix
     out.push(Case { family: "substitution", defs: vec![d("m", &["a", "a_l"], "mov a_l, a")], data: String::new(), code: "start:\nm(5, bl)\n".into() });
+    // every sequence of up to 3 uses over macros with an empty body, a blank body, a plain body and a body
+    // that uses the empty macro twice: using a macro must leave no trace that changes a later use
+    {
+        let defs = vec![d("e", &["a"], ""), d("s", &["a"], " "), d("i", &["a"], "inc a"), d("w", &["a"], "e(a) inc a e(a)")];
+        let names = ["e", "s", "i", "w"];
+        let mut seqs: Vec<Vec<usize>> = vec![];
+        for a in 0..4 {
+            seqs.push(vec![a]);
+            for b in 0..4 {
+                seqs.push(vec![a, b]);
+                for c in 0..4 {
+                    seqs.push(vec![a, b, c]);
+                }
+            }
+        }
+        for sq in seqs {
+            let uses: String = sq.iter().map(|k| format!("{}(bx)\n", names[*k])).collect();
+            out.push(Case { family: "use-sequence", defs: defs.clone(), data: String::new(), code: format!("start:\nstc\n{}clc\n", uses) });
+            out.push(Case { family: "use-sequence", defs: defs.clone(), data: String::new(), code: format!("def f {{\ncmc\n{}}}\nstart:\ncall f\n{}", uses, uses) });
+        }
+    }
     // chains of moderate depth
     for depth in [1usize, 2, 4, 8, 16, 32, 64] {
         let mut defs = vec![d("c0", &["a"], "inc a")];
@@ -401,7 +422,7 @@ pub fn run(tier: &Tier) -> i32 {
     c.states.fetch_add(st.0.load(Ordering::Relaxed), Ordering::Relaxed);
     let mut cov = Coverage::default();
     cov.exhaustive = true;
-    cov.rule = "differential: the program with macros must emit exactly what the real Preprocessor emits for the reference expansion (whole-word, simultaneous textual substitution, nested uses expanded) pasted in place. Families: EVERY use graph over 1, 2 and 3 macros (4 in thorough; each macro uses any subset of the macros incl. itself => all DAGs and all cyclic graphs), used from top level by each macro and from inside a procedure; parameter lists whose names are prefixes/substrings of each other and of body tokens x 9 body templates (register, immediate, memory, displacement and macro-name slots) x 16 argument kinds squared; by-name passing incl. cycles closed through a name; unknown and late-defined macros; chains of depth 1..64 in-process and up to 4096 through the real binary. Cyclic / unknown => diagnostic positioned at a use site; invalid expansion => rejected; deep chains => exact expansion up to depth 64, above that expansion or diagnostic but never an abort".into();
+    cov.rule = "differential: the program with macros must emit exactly what the real Preprocessor emits for the reference expansion (whole-word, simultaneous textual substitution, nested uses expanded) pasted in place. Families: EVERY use graph over 1, 2 and 3 macros (4 in thorough; each macro uses any subset of the macros incl. itself => all DAGs and all cyclic graphs), used from top level by each macro and from inside a procedure; parameter lists whose names are prefixes/substrings of each other and of body tokens x 9 body templates (register, immediate, memory, displacement and macro-name slots) x 16 argument kinds squared; by-name passing incl. cycles closed through a name; every sequence of up to 3 uses over macros with empty, blank, plain and nested-empty bodies (top level and inside a procedure); unknown and late-defined macros; chains of depth 1..64 in-process and up to 4096 through the real binary. Cyclic / unknown => diagnostic positioned at a use site; invalid expansion => rejected; deep chains => exact expansion up to depth 64, above that expansion or diagnostic but never an abort".into();
     cov.bounds = json!({"cases": cases.len(), "reference_rejects": st.1.load(Ordering::Relaxed), "both_expand": st.2.load(Ordering::Relaxed), "chain_depths": depths, "tier": tier.name()});
     cov.assumptions = common_assumptions();
     cov.assumptions.push("macro arguments are generated as unsigned numbers, registers, memory operands and identifiers (negative literals as arguments are not demanded)".into());
